@@ -1,4 +1,5 @@
 import Xandikos.Driver.StoreDriver
+import Xandikos.Driver.PyDriver
 
 partial def loop {σ : Type} (h : IO.FS.Stream) (out : IO.FS.Stream) (st : σ)
     (step : σ → String → σ × String) : IO Unit := do
@@ -13,4 +14,7 @@ def main (args : List String) : IO UInt32 := do
   let stdout ← IO.getStdout
   match args with
   | ["store"] => loop stdin stdout ({} : Xandikos.StoreDriver.DState) Xandikos.StoreDriver.step; return 0
+  | ["pyurl"] => loop stdin stdout () Xandikos.PyDriver.urlStep; return 0
+  | ["pyini"] => loop stdin stdout () Xandikos.PyDriver.iniStep; return 0
+  | ["pypath"] => loop stdin stdout () Xandikos.PyDriver.pathStep; return 0
   | _ => IO.eprintln "usage: xdriver <store|...>"; return 2
